@@ -215,13 +215,17 @@ func (r *ParseRequestResponse) injectFile(upload *Upload, paths []string) error 
 				if index < 0 || index >= len(v) {
 					return fmt.Errorf("file index %d out of bound %d", index, len(v))
 				}
-				fileVal := v[index]
-				if fileVal != nil {
+				switch fileVal := v[index].(type) {
+				// a list of input objects (ex: variables.docs.0.file): keep stepping through the element
+				case map[string]interface{}:
+					variables = fileVal
+				case nil:
+					v[index] = upload
+				default:
 					return fmt.Errorf("expected nil value, got %v", fileVal)
 				}
-				v[index] = upload
 
-				// skip the final iteration through parts (skips the index definition, ex: the "2" in: variables.input.files.2)
+				// skip the index definition, ex: the "2" in: variables.input.files.2
 				i++
 			default:
 				return fmt.Errorf("expected nil value, got %v", v) // possibly duplicate path or path to non-null variable
